@@ -43,7 +43,7 @@ func checkC11(c *Ctx) {
 			return base
 		}, func(string) [][]string { return [][]string{{"p1"}} }},
 		{"Verify", func(*incorp, *ssa.Function) string { return "p1" }, func(string) [][]string { return [][]string{{"p2"}} }},
-		{"BatchVerify", func(*incorp, *ssa.Function) string { return "p1" }, func(string) [][]string { return [][]string{{"lookup(p2)", "keys(p2)"}} }},
+		{"BatchVerify", func(*incorp, *ssa.Function) string { return "p1" }, func(string) [][]string { return [][]string{{"lookup(p2)", "keys(p2)", "len(lookup(p2))"}} }},
 	}
 	for _, s := range specs {
 		fn := p.Method("security/cert", "Cache", s.name)
@@ -110,7 +110,7 @@ func checkC11(c *Ctx) {
 				missSizes = append(missSizes, where)
 			}
 		}
-		what := map[string]string{"Sign": "the message", "Verify": "the message", "BatchVerify": "every per-signer message and its signer id (hash result reaching the key)"}[s.name]
+		what := map[string]string{"Sign": "the message", "Verify": "the message", "BatchVerify": "every per-signer message, its length (the messages are concatenated) and its signer id (hash result reaching the key)"}[s.name]
 		c.Check(len(missMsg) == 0, "C11.1/message", "Cache."+s.name, p.FuncPos(fn),
 			"every key given to check/insert ("+itoa(len(ksites))+" sites) incorporates "+what,
 			"cache key does not incorporate "+what+": a verdict remembered for one message/batch is returned for another; "+join(missMsg))
@@ -250,6 +250,14 @@ func checkC11(c *Ctx) {
 			if d.Key(mu.Map) == "p0->hs/security/cert.Cache.entries" {
 				if d.Key(mu.Key) == "p1" && strings.HasPrefix(d.Key(mu.Value), "(*container/list.List).PushFront(&p0->hs/security/cert.Cache.accessOrder, p1)") {
 					ok = true
+					// only a key that is not there yet: a second list element for a key that is already present leaves a
+					// stale element behind, whose eviction later removes the live key from the map
+					absent := falseOf(d.Facts, func(k string) bool {
+						return strings.HasPrefix(k, "p0->hs/security/cert.Cache.entries[p1]") && strings.HasSuffix(k, "#1")
+					})
+					c.Check(absent, "C11.5", "insert: a key enters the recency list once", p.InstrPos(d.Instr),
+						"PushFront(key) only when entries has no element for the key (a present key is moved to the front instead)",
+						"a key that is already cached gets a second list element; facts: "+join(d.Facts.Sorted()))
 				}
 			}
 		}
